@@ -21,7 +21,12 @@ P_IdsDisjoint(o) == /\ \A i \in ToSet(o.scids.L) : i % 2 = 1
                     /\ \A i \in ToSet(o.scids.F) : i % 2 = 0
                     /\ Cardinality(ToSet(o.scids.L)) = Len(o.scids.L) /\ Cardinality(ToSet(o.scids.F)) = Len(o.scids.F)
 P_UnexpectedRefused(o) == o.pendingUnexpected = 0
-P_WriteAfterCloseErrors(o) == o.afterCloseOK
+\* calls: the application's write / close calls on that end in order, each "ok" or "err"; closesSent: CLOSE records the
+\* end's Manager was asked to send for it
+P_WriteAfterCloseErrors(o) == /\ o.afterCloseOK
+                              /\ \A e \in E(o) : \A i, j \in 1..Len(o.ends[e].calls) :
+                                    (i < j /\ o.ends[e].calls[i] = <<"close", "ok">>) => o.ends[e].calls[j] # <<"write", "ok">>
+P_CloseOnce(o) == \A e \in E(o) : o.ends[e].closesSent <= 1
 P_NoInternal(o) == o.internal = <<>>
 
 VARIABLE k
@@ -29,6 +34,6 @@ Init == k = 0
 Next == k < Len(All) /\ k' = k + 1
         /\ PrintT(<<"OBS", All[k'].tid, <<P_InOrderOnce(All[k']), P_Goal(All[k']), P_OpensOnce(All[k']), P_NothingAfterLost(All[k']),
                                           P_DataInOrder(All[k']), P_IdsDisjoint(All[k']), P_UnexpectedRefused(All[k']),
-                                          P_WriteAfterCloseErrors(All[k']), P_NoInternal(All[k'])>>>>)
+                                          P_WriteAfterCloseErrors(All[k']), P_NoInternal(All[k']), P_CloseOnce(All[k'])>>>>)
 Spec == Init /\ [][Next]_k
 ====
